@@ -183,12 +183,11 @@ Qed.
 
 (* ---- 5. keeping selected models ---- *)
 Theorem C10_remove_models_except_refused : forall idxs (p : pdb),
-  (p = [] \/ idxs = [] \/ length p <= fold_right Nat.max 0 idxs) ->
+  (p = [] \/ length p <= fold_right Nat.max 0 idxs) ->
   PDB_remove_models_except idxs p = (p, None).
 Proof.
   intros idxs p H. unfold PDB_remove_models_except. destruct p as [|m ms]; [reflexivity|].
-  destruct idxs as [|i is]; [reflexivity|].
-  destruct H as [H|[H|H]]; try discriminate.
+  destruct H as [H|H]; try discriminate.
   apply Nat.leb_le in H. now rewrite H.
 Qed.
 Lemma enumerate_nth {A} (l : list A) : forall i k x, In (k, x) (enumerate_from i l) <-> (i <= k /\ nth_error l (k - i) = Some x).
@@ -204,13 +203,13 @@ Proof.
       * right. split; [lia|]. replace (k - i) with (S (k - S i)) in H2 by lia. exact H2.
 Qed.
 Theorem C10_remove_models_except_accepted : forall idxs (p : pdb),
-  p <> [] -> idxs <> [] -> fold_right Nat.max 0 idxs < length p ->
+  p <> [] -> fold_right Nat.max 0 idxs < length p ->
   let kept := map snd (filter (fun im => existsb (Nat.eqb (fst im)) idxs) (enumerate_from 0 p)) in
   PDB_remove_models_except idxs p = (kept, Some (length p - length kept)) /\
   (forall m, In m kept <-> exists i, In i idxs /\ nth_error p i = Some m).
 Proof.
-  intros idxs p Hp Hi Hmax kept. split.
-  - unfold PDB_remove_models_except. destruct p as [|m ms]; [congruence|]. destruct idxs as [|i is]; [congruence|].
+  intros idxs p Hp Hmax kept. split.
+  - unfold PDB_remove_models_except. destruct p as [|m ms]; [congruence|].
     apply Nat.leb_gt in Hmax. rewrite Hmax. reflexivity.
   - intros m. unfold kept. rewrite in_map_iff. split.
     + intros [[k x] [E H]]. simpl in E. subst x. apply filter_In in H as [H1 H2]. simpl in H2.
